@@ -50,6 +50,28 @@ var badKinds = []string{"msg", "fR", "fS", "fA", "sL", "zS", "smA", "smR", "udA"
 
 var secondDamage = []string{"tK", "nK", "tS", "lS", "nS", "sL", "fS", "msg", "sL", "tK"}
 
+// subtleKinds: entries that satisfy the group equation, or part of it, and are
+// rejected by exactly one rule. When such an entry is the only bad one of its
+// chunk, a batch path that has lost that rule reports it valid.
+var subtleKinds = []string{"pfx", "noR", "noA", "noRB", "torR", "lK", "phLen", "smRv", "tor0", "tor", "sL", "pfx", "smRv", "ncR"}
+
+func genSubtle(r *Rng, o Opt) Entry {
+	e := genBad(r, o)
+	if r.Chance(3, 5) {
+		e = Entry{K: subtleKinds[r.Intn(len(subtleKinds))], P: r.Intn(1 << 16), Q: r.Intn(1 << 16)}
+		if e.K == "phLen" && o.Hash != 1 {
+			e.K = "pfx"
+		}
+		if e.K == "pfx" && r.Chance(1, 2) {
+			e.P = []int{1, 3, 5, 7}[r.Intn(4)] // 64, 128, 192, 256: compression-block borders
+		}
+		if o.Zip && (e.K == "tor" || e.K == "tor0" || e.K == "smRv") {
+			e.K = "noRB"
+		}
+	}
+	return e
+}
+
 func genBad(r *Rng, o Opt) Entry {
 	k := badKinds[r.Intn(len(badKinds))]
 	e := Entry{K: k, P: r.Intn(1 << 16), Q: r.Intn(1 << 16)}
@@ -210,7 +232,10 @@ func genEntries(r *Rng, n int, o Opt) (es []Entry, profile string) {
 		profile = "allgood"
 	case 1:
 		profile = "onebad"
-		setBad(interestingPos(r, n))
+		i := interestingPos(r, n)
+		b := genSubtle(r, o)
+		b.Key, b.ML = es[i].Key, es[i].ML
+		es[i] = b
 	case 2:
 		profile = "fewbad"
 		k := r.Range(2, 5)
@@ -781,6 +806,23 @@ func checkBatch(c *Case, v *Verdict) {
 		}
 		if (out.Ok == "true") != conj {
 			v.fail("batch-summary", fmt.Sprintf("summary=%v", conj), act, "summary flag is not the conjunction of the entries")
+			return
+		}
+	}
+	if is("C17") && dev.ErrKind == 0 && allValid && n >= 4 {
+		// "a batch of 4 or more entries that are all individually valid is
+		// accepted by the batch equation itself": at most 3 trailing entries
+		// may be verified one by one
+		for _, rm := range out.Remainder {
+			if rm[1] >= 4 {
+				v.fail("c17-remainder-not-batched", "fewer than 4 entries verified one by one", act,
+					"entries [%d,%d) of an all-valid %d-entry batch were verified one by one instead of going through the batch equation", rm[0], rm[0]+rm[1], n)
+				return
+			}
+		}
+		if len(out.Remainder) == 0 && len(out.Fallbacks) == 0 && dev.Delivered == 0 {
+			v.fail("c17-no-entropy-drawn", "randomisers drawn from the entropy source", act,
+				"an all-valid %d-entry batch was accepted without a single byte of entropy being read: the randomised batch equation cannot have been evaluated", n)
 			return
 		}
 	}
